@@ -329,11 +329,23 @@ def script_of_model(hist, m, upto, reopen=False):
     return {'steps': steps, 'build_steps': 0}
 
 
+def _worker_init():
+    """a pool worker must not inherit the runner's clean-up: its SIGTERM handler kills the solver
+    processes the runner has started (the handler and the list of live children are copied by
+    fork, and closing the pool sends SIGTERM to the workers)"""
+    import signal
+    signal.signal(signal.SIGTERM, signal.SIG_DFL)
+    signal.signal(signal.SIGINT, signal.SIG_DFL)
+    c = sys.modules.get('vlib.common')
+    if c is not None:
+        c._LIVE.clear()
+
+
 def run_all(mir_path, repo, jobs=4, backend='imem'):
     import multiprocessing as mp
     t0 = time.time()
     tasks = [(mir_path, repo, n, backend) for n in histories()]
-    with mp.get_context('fork').Pool(min(jobs, len(tasks))) as pool:
+    with mp.get_context('fork').Pool(min(jobs, len(tasks)), initializer=_worker_init) as pool:
         outs = pool.map(run_history, tasks, chunksize=1)
     return outs, time.time() - t0
 
